@@ -102,3 +102,45 @@ Print Assumptions C14_server_unrestricted_refuted.
 Print Assumptions C14_exec_stops_after_error.
 Print Assumptions C14_exec_no_poll_after_err.
 Print Assumptions C14_server_contract_exec.
+
+(* ------------------------------------------------------------------------------------------ *)
+(* Composition of the client model and the server model (coq/Chain*.v); names are qualified. *)
+From TarpcV Require Client Server Chain ChainSpec ChainFuel.
+(* on the COMPOSITION (coq/Chain.v), for EVERY depth and EVERY op list, in every state reached
+   (tainted or not): no poll of a RequestDispatch and no poll of a Requests stream of any node
+   runs out of the fuel the model gives it (Chain.cfuel for the dispatch, the fuel of
+   Server.poll_fuel with tfuel = length of the inbound side of the link for the stream).  The
+   bounded loops of the model are therefore total on the links of a chain, as they are on the
+   scripted transport (C14_client_total / C14_server_total). *)
+Theorem C14_chain_poll_fuel : forall (d : nat) (ops : list Chain.cop) (l : list Chain.cobs),
+  In l (fst (Chain.run d ops)) ->
+  forall i, ~ In (Chain.KDisp i Client.DFuel) l /\ ~ In (Chain.KStream i Chain.KFuel) l.
+Proof. exact ChainFuel.chain_poll_fuel_stmt. Qed.
+
+(* hence the monitor Chain.cfuel_ok says exactly: no SettleAll ran out of rounds *)
+Theorem C14_chain_fuel_iff_rounds : forall (d : nat) (ops : list Chain.cop),
+  Chain.cfuel_ok d ops (fst (Chain.run d ops)) = true
+  <-> (forall l, In l (fst (Chain.run d ops)) -> ~ In Chain.KRounds l).
+Proof. exact ChainFuel.chain_fuel_iff_rounds. Qed.
+
+(* non-vacuity: the monitor does reject a dispatch poll out of fuel, a stream poll out of fuel
+   and a SettleAll out of rounds *)
+Example C14_chain_fuel_nonvacuous :
+  Chain.cfuel_ok 1 [Chain.PollDispatch 0] [[Chain.KDisp 0 Client.DFuel]] = false
+  /\ Chain.cfuel_ok 1 [Chain.PollRequests 0] [[Chain.KStream 0 Chain.KFuel]] = false
+  /\ Chain.cfuel_ok 1 [Chain.SettleAll] [[Chain.KRounds]] = false
+  /\ Chain.cfuel_ok 1 [Chain.SettleAll] [[Chain.KCGauge 0 0 0; Chain.KSGauge 0 0 0]] = true.
+Proof. vm_compute. repeat split; reflexivity. Qed.
+
+(* the rounds half is ChainSpec.stmt_chain_rounds: OPEN, checked only (Chaincheck's cfuel_ok on
+   every real trace).  The original ChainSpec.stmt_chain_fuel (which also demands that no SettleAll runs out of
+   rounds, unconditionally) is FALSE in the model: after a clock jump beyond the DelayQueue
+   range (2^36 ms, the boundary `dq_env` of the trusted base) the timer-order oracle of a server
+   disagrees, Server.s_bad is sticky, KOracle is an event of every later round, no later round
+   is quiet and SettleAll reports KRounds *)
+Theorem C14_chain_fuel_pinned_refuted : ~ ChainSpec.stmt_chain_fuel.
+Proof. exact ChainFuel.chain_fuel_refuted. Qed.
+
+Print Assumptions C14_chain_poll_fuel.
+Print Assumptions C14_chain_fuel_iff_rounds.
+Print Assumptions C14_chain_fuel_pinned_refuted.
